@@ -2,6 +2,7 @@ import PikaVerif.Props.C19
 import PikaVerif.Lemmas.ElasticT
 import PikaVerif.Lemmas.ElasticFin
 import PikaVerif.Lemmas.ElasticFin2
+import PikaVerif.Lemmas.ElasticCount
 /-!
 # C19t — termination of suspend / resume (follow-up of C19)
 
@@ -435,6 +436,45 @@ theorem C19t_resume_returned (cfg : Cfg) (N : Nat) (R : Nat → Bool) (s : St) (
   obtain ⟨c1, _, c3, _, c5, _⟩ := C19t_calls_returned cfg N s hr hm.1 hlow w hw hs
   exact ⟨c3, (c5 h1).2.1, c1⟩
 
+/-- **Neither dropped nor duplicated (counters).**  After every accepted log, for every worker:
+    placements on its queues = takes from its queues + what is still queued; the same for the shared
+    low-priority queue.  (Exactly-once of the task *bodies* is C01's token discipline, `C19_no_dup`.) -/
+theorem C19t_counters (cfg : Cfg) (log : List Ev) (s : St) (h : runLog step (init cfg) log = some s) (w : Nat) :
+    cntP (isIncOn w) log = cntP (isDecOn w) log + (s.wk w).q ∧
+    cntP isIncLow log = cntP isDecLow log + s.lowq := by
+  have := q_runLog log w (init cfg) s h
+  have h0 : ((init cfg).wk w).q = 0 := rfl
+  have h1 : (init cfg).lowq = 0 := rfl
+  omega
+
+/-- **Every placed task was taken exactly once, or waits on a sleeping worker for the resume.**  In
+    the final state of a maximal run, for a started worker `w < N`: if its thread is in its loop,
+    the number of takes from its queues equals the number of placements; otherwise (`w` is asleep inside
+    `wait`) the difference is what is still queued, and all of that was placed unguarded after the
+    worker's final emptiness check or a pool suspend's unlocked CAS was involved. -/
+theorem C19t_all_taken_or_awaiting_resume (cfg : Cfg) (N : Nat) (log : List Ev) (s : St)
+    (h : runLog step (init cfg) log = some s) (hm : Maximal N s) (w : Nat) (hw : w < N)
+    (hs : (s.wk w).actor ≠ none) :
+    ((s.wk w).pc = .loop → cntP (isDecOn w) log = cntP (isIncOn w) log) ∧
+    ((s.wk w).pc ≠ .loop → (s.wk w).pc = .waiting ∧ (s.wk w).st = rsSleeping ∧
+        cntP (isIncOn w) log = cntP (isDecOn w) log + (s.wk w).q ∧
+        ((s.wk w).dirty = true ∨ (s.wk w).q ≤ (s.wk w).late)) := by
+  have hi := (inv_of_accepted h) w
+  have hf := final_of_maximal N s (inv_of_accepted h) hm w hw
+  have hc := (C19t_counters cfg log s h w).1
+  refine ⟨?_, ?_⟩
+  · intro hl
+    have := hf.drained hl hs
+    omega
+  · intro hnl
+    cases hf.pcFin with
+    | inl hl => exact absurd hl hnl
+    | inr hr =>
+      refine ⟨hr.1, hr.2.2, hc, ?_⟩
+      cases hd : (s.wk w).dirty with
+      | true => exact Or.inl rfl
+      | false => exact Or.inr (hi.strand (Or.inr hnl) hd)
+
 /-- the finding `lowprio-last-worker` as a history: worker 1 is the last worker; a low-priority task
     is staged; actor 9 asks worker 1 to sleep -/
 def lowLog : List Ev :=
@@ -533,6 +573,10 @@ example : (runLog step (init cfg2) (stealLog ++ [.dec 2 0])).isSome = true ∧ M
     ¬ MaximalR 10 (fun _ => false) stealSt ∧ (stealSt.wk 0).q = 1 ∧ (stealSt.wk 0).st = rsSleeping ∧
     MaximalR 10 (fun _ => false) stolenSt ∧ (stolenSt.wk 0).q = 0 ∧ (stolenSt.wk 0).st = rsSleeping ∧
     (stolenSt.wk 1).st = rsRunning := by decide
+
+/-- counters along the example run: 2 placements, 2 takes, nothing queued -/
+example : (cntP (isIncOn 0) C19.exampleLog, cntP (isDecOn 0) C19.exampleLog, cntP (isIncOn 1) C19.exampleLog,
+    cntP (isDecOn 1) C19.exampleLog) = (1, 1, 1, 1) := by decide
 
 /-- a state satisfying the hypotheses of `C19t_resumed_takes_work`: an escalated placement on a
     sleeping worker, then the notify of a resume call -/
